@@ -156,7 +156,8 @@ def _canon_default(o):
         return list(o)
     if isinstance(o, bytes):
         return o.hex()
-    return repr(o)
+    import re
+    return re.sub(r' at 0x[0-9a-fA-F]+', '', repr(o))
 
 
 def h64(s: str) -> int:
